@@ -118,7 +118,7 @@ def run(case, ctx, rng):
             def fb(buf):
                 h = Keccak(b=b, r=r, len=d); h.duplexing = (mode == 'native')
                 return h(buf, bitlen=L) if L else h(buf)
-            mutable_arg(ctx, 'sponge==reference', fb, M, want, **det)
+            mutable_arg(ctx, 'sponge==reference', fb, M, want, must_accept=False, **det)       # (the NIST bit-alignment path takes bytes only)
     elif k == 'siblings':
         from vmon.core import siblings
         from crysp.sha import SHA3
